@@ -319,6 +319,7 @@ func genSignals(p *pkgInfo) (string, error) {
 		{"Program", "exec"}, {"Program", "suspend"}, {"", "Batch"}, {"", "Sequence"}, {"", "compactCmds"},
 		{"standardRenderer", "start"}, {"standardRenderer", "stop"}, {"standardRenderer", "kill"}, {"standardRenderer", "listen"},
 		{"Program", "shutdown"}, {"Program", "recoverFromPanic"}, {"Program", "handlePanic"}, {"Program", "initCancelReader"},
+		{"", "Every"}, {"", "Tick"},
 	} {
 		s, ok := g.shape(f[0], f[1])
 		if !ok {
